@@ -17,7 +17,7 @@ func runC12(e *Env) error {
 	e.CaseType = "gcase"
 	e.ShardBytes = 120000
 	e.ShardSize = 150
-	e.Rule = "per topic: honest messages over the slots/committees/subnets of a window on chains built with the real transition (real BLS signatures), plus every single-condition corruption and the timing/availability failures; world gap: blocks whose parent lies 2 and 3 epochs back (main chain and side branches, across the altair fork) and sync messages/contributions for a slot in a later sync-committee period than the signed head block where the committee rotated (every seat: new, kept, held only before), the sync committee given to the model being the one of the state at the message's slot; non-trivial = every case (each runs a validator against a chain view); distinct by (topic, corruption, verdict, ordinal)"
+	e.Rule = "per topic: honest messages over the slots/committees/subnets of a window on chains built with the real transition (real BLS signatures), plus every single-condition corruption and the timing/availability failures; world gap: blocks whose parent lies 2 and 3 epochs back (main chain and side branches, across the altair fork) and sync messages/contributions for a slot in a later sync-committee period than the signed head block where the committee rotated (every seat: new, kept, held only before), the sync committee given to the model being the one of the state at the message's slot; world forks: every topic in the last slot before and the first slot after a fork-version change following altair (bellatrix, capella), with each signature also made under the adjacent fork's domain; all cases of a world run against the same long-lived contexts (one backend), the model's facts come from contexts computed from the states alone, every call is checked not to change the chain view, and stateful sequences (partial aggregate / contribution / block, then the other members' messages, then the first message again) are arranged on one view; non-trivial = every case (each runs a validator against a chain view); distinct by (topic, corruption, verdict, ordinal)"
 	g := &Gen{E: e, Count: map[string]int{}, Salt: e.Rng.Intn(1 << 20)}
 	c := NewCrypto()
 	lap := func(what string) {
@@ -61,6 +61,11 @@ func runC12(e *Env) error {
 	lap("sync messages small")
 	g.genContributions(sc, syncHeads)
 	lap("contributions small")
+	// stateful sequences on one backend (several messages about one committee, one after another)
+	g.genAttSequences(sc, []*View{mkView(sc, sc.Tip(), sc.Tip().Slot, 4000), mkView(sc, sc.BySlot[12], 12, 4000), mkView(sc, sc.Side[len(sc.Side)-1], 19, 4000)})
+	g.genSyncSequences(sc, []HeadAt{{sc.Tip(), sc.Tip().Slot}, {sc.BySlot[23], 25}})
+	g.genBlockSequences(sc, []*Node{sc.BySlot[9], sc.BySlot[26], sc.Side[2]})
+	lap("sequences small")
 
 	// world "large": 256 validators, one committee of 32 per slot (aggregator selection modulo 2),
 	// sync committee of 128 (sync aggregator selection modulo 2), altair from epoch 1
@@ -140,6 +145,17 @@ func runC12(e *Env) error {
 	for _, k := range []string{"sync/honest[seat-new-in-this-period]=ACCEPT", "sync/seat-only-in-previous-period=REJECT", "block/honest[parent-2-epochs-back]=ACCEPT", "block/honest[parent-3-epochs-back]=ACCEPT"} {
 		e.Extra["x_"+k] = g.Count[k]
 	}
+	// world "forks": fork-version changes after altair (altair epoch 1, bellatrix epoch 3, capella epoch 5): every topic in the
+	// last slot of the old fork and the first slot of the new one (every signature domain computed at a fork boundary), with
+	// the corruption "signed under the domain of the adjacent fork"
+	forks := NewWorld(WorldKnobs{Name: "forks", Validators: 64, TargetCommittee: 4, SyncCommittee: 32, AltairEpoch: 1, BellatrixEpoch: 3, CapellaEpoch: 5, ShardCommittee: 1, MaxCommitteeSize: 16}, c)
+	fk := buildForkChain(forks)
+	lap("chain forks")
+	g.genForkBoundaries(fk)
+	g.genAttSequences(fk, []*View{mkView(fk, fk.BySlot[25], 25, 4000), mkView(fk, fk.BySlot[41], 41, 4000)})
+	g.genSyncSequences(fk, []HeadAt{{fk.BySlot[23], 24}, {fk.BySlot[40], 40}})
+	g.genBlockSequences(fk, []*Node{fk.BySlot[24], fk.BySlot[40]})
+	lap("world forks")
 	if !e.Quick() {
 		// world "mid": 128 validators, four committees of four per slot, altair from epoch 1; every topic again
 		mid := NewWorld(WorldKnobs{Name: "mid", Validators: 128, TargetCommittee: 4, SyncCommittee: 32, AltairEpoch: 1, ShardCommittee: 2, MaxCommitteeSize: 16}, c)
